@@ -162,6 +162,7 @@ func verifLowerASCII(s string) string {
 }
 
 func VerifC11_OpenFile() {
+	verifrt.NativeUnsupported("AES is replaced by engine-injected cipher stubs")
 	path := verifC11Paths[verifrt.Choice("path", len(verifC11Paths))]
 	// oracle-side path analysis (own code)
 	slash := strings.LastIndexByte(path, '/')
